@@ -62,6 +62,9 @@ def obligations(tier):
                    symbolic="an int over the field's range, an IEEE double (float32 fields: rounded), a string <= 3 ASCII characters without NUL, an array element"),
         Obligation("from_json_version_gate", H, "h_gate", [{}], cond_timeout=200, flags=("ieee",), reach="h_gate_reach", encoded=ENC,
                    bounds="header-plus-data JSON for a 4-byte message", symbolic="header.version (uint32), msg_type (int32), a data field"),
+        Obligation("from_json_version_gate_is_per_document", H, "h_gate2", [{}], cond_timeout=300, flags=("ieee",), reach="h_gate2_reach", encoded=ENC,
+                   bounds="two header-plus-data documents decoded one after the other in one process (the first of the 4-byte type: in sync, legacy version 0 or refused)",
+                   symbolic="both header.version values (uint32), the second msg_type (int32), a data field"),
     ]
 
 
